@@ -268,8 +268,12 @@ pub fn main_gen(args: &[String]) {
         let bytes = if by_ext {
             let mut v = b.build();
             let key = cred.key();
+            // (a peer may seal in the order the builder refuses - SHA-256 first, SHA-1 behind it and hidden by it: the parser
+            // takes it, and what is checked is then the SHA-256 attribute, which is correct for the sealing key)
+            let sha256_first = seal & 3 == 3 && rng.gen_bool(0.4);
+            if sha256_first { v = ext::seal(v, &key, true, trunc); }
             if seal & 1 != 0 { v = ext::seal(v, &key, false, 20); }
-            if seal & 2 != 0 { v = ext::seal(v, &key, true, trunc); }
+            if seal & 2 != 0 && !sha256_first { v = ext::seal(v, &key, true, trunc); }
             if seal & 4 != 0 { v = ext::fingerprint(v); }
             v
         } else {
@@ -394,9 +398,11 @@ pub fn main_genops(args: &[String]) {
     let seed: u64 = args[1].parse().unwrap();
     let mut out = std::io::BufWriter::new(std::fs::File::create(&args[2]).expect("out"));
     let mut rng = StdRng::seed_from_u64(seed ^ 0xc11);
-    let cred_desc = CredDesc { long: false, user: String::new(), realm: String::new(), password: "genops key".into() };
-    let cred = lib_cred(&cred_desc);
     for i in 0..n {
+        // short-term credentials, or long-term ones (whose key derivation an attribute of the message must not influence)
+        let cred_desc = if i % 3 == 1 { CredDesc { long: true, user: "genops user".into(), realm: "genops.example".into(), password: "genops key".into() } }
+                        else { CredDesc { long: false, user: String::new(), realm: String::new(), password: "genops key".into() } };
+        let cred = lib_cred(&cred_desc);
         // a request some of the builders answer (leaked: the helpers tie their result to the message's lifetime)
         let rtid = TransactionId::from(rng.gen::<u128>() >> 32);
         let rmethod: u16 = *[1u16, 0x0fff, 0x0400, rng.gen_range(0..0x1000)].choose(&mut rng).unwrap();
@@ -411,6 +417,14 @@ pub fn main_genops(args: &[String]) {
         let tid = TransactionId::from(rng.gen::<u128>() >> 32);
         let mut kinds: Vec<usize> = (0..20).collect();
         kinds.shuffle(&mut rng);
+        if cred_desc.long {
+            // with long-term credentials the attributes RFC 8489 involves in authentication come first: what is sealed and
+            // under which key is a function of the credentials alone, whatever USERNAME, REALM, NONCE, USERHASH or
+            // PASSWORD-ALGORITHM(S) the message carries (and whatever their values are)
+            let lead = *[13usize, 13, 14, 0, 1, 2, 15].choose(&mut rng).unwrap();
+            kinds.retain(|k| *k != lead);
+            kinds.insert(0, lead);
+        }
         let mut pool: Vec<Box<dyn AttributeWrite>> = kinds.iter().take(6).map(|k| rand_attr(&mut rng, *k, tid).0).collect();
         pool.push(Box::new(ErrorCode::new(*[300u16, 420, 699].choose(&mut rng).unwrap(), "").unwrap()));
         pool.push(Box::new(Software::new("another software").unwrap()));
@@ -447,7 +461,19 @@ pub fn main_genops(args: &[String]) {
                     let a = pool.choose(&mut rng).unwrap();
                     if matches!(a.get_type().value(), 8 | 28 | 0x8028) { continue; }
                     rec = json!({"op": "add_raw_attribute", "type": a.get_type().value()});
-                    let raw = a.to_raw().into_owned();
+                    // the attribute's own encoding, or - a raw attribute may hold anything - a value the typed decoder of
+                    // that type would refuse or read differently (the builder's rules look at types only, and nothing the
+                    // builder or the sealing does may depend on the value)
+                    let raw = if rng.gen_bool(if cred_desc.long { 0.5 } else { 0.3 }) {
+                        let odd: Vec<u8> = match if cred_desc.long { rng.gen_range(0..3) } else { rng.gen_range(0..5) } {
+                            0 => vec![0x00, 0x02, 0x00, 0x04, 0xde, 0xad, 0xbe, 0xef],       // reads like PASSWORD-ALGORITHM SHA-256 + parameters
+                            1 => vec![0x00, 0x02, 0x00, 0x00, 0x00, 0x00, 0x00, 0x00],
+                            2 => vec![0xff, 0xfe, 0x80],                                    // not UTF-8, not padded
+                            3 => vec![],
+                            _ => (0..rng.gen_range(1..40)).map(|_| rng.gen()).collect(),
+                        };
+                        RawAttribute::new_owned(a.get_type(), odd.into_boxed_slice())
+                    } else { a.to_raw().into_owned() };
                     std::panic::catch_unwind(std::panic::AssertUnwindSafe(|| b.add_raw_attribute(raw)))
                 }
                 7 => { rec = json!({"op": "add_integrity", "type": 8}); std::panic::catch_unwind(std::panic::AssertUnwindSafe(|| b.add_message_integrity(&cred, IntegrityAlgorithm::Sha1))) }
